@@ -63,6 +63,29 @@ def run(rep, ctx, tier):
                            starts=[("FIELD", LCOMB, "terms")])
         from ..rules import overwrite as R5O
         R5O.run(rep, ctx, a, ("FIELD", LCOMB, "terms"), "R5o")
+    # R2: which polynomials get opened / looked up for an equation depends on the labels of its terms, never on their
+    # coefficients (a term with a zero or otherwise special coefficient is still a term: the verifier looks its
+    # evaluation up)
+    hb = None
+    for x in f.bodies.values():
+        if x.kind != "Closure" and x.name == "lc_query_set_to_poly_query_set" and not x.self_adt:
+            hb = x
+    if hb is None:
+        rep.add("R2", "poly-query-set:anchor", False, "lc_query_set_to_poly_query_set not found (fail closed)", None)
+    else:
+        from ..flow import Graph, OUTCOME
+        g2 = Graph(f, f.closure([hb.id], None), [hb.id], None)
+        src = ("FIELD", LCOMB, "terms")
+        g2.reach([src], want=OUTCOME)
+        control_ok = g2.last_goal is not None
+        g2.reach([("STATE", src, t) for t in T.SCALARS], want=OUTCOME)
+        leak = g2.last_goal
+        rep.add("R2", "poly-query-set:coefficient-independent", control_ok and leak is None,
+                "the polynomial query set derived from the equations depends on their terms' labels and not on any coefficient"
+                if (control_ok and leak is None) else
+                ("positive control failed: the equations' terms do not reach the derived query set at all (fail closed)" if not control_ok else
+                 "a coefficient can decide whether a polynomial of an equation is opened / looked up: a term with that "
+                 "coefficient is silently left out on one side"), hb.span)
     # R9 on the trait-default pair
     ob = f.find1("open_combinations", in_trait=PC)
     cb = f.find1("check_combinations", in_trait=PC)
